@@ -93,7 +93,7 @@ def rt_corpus(tier, seed):
     if tier == "quick":
         r = random.Random("rt/%s" % seed)
         # always keep the trap-expecting ones in the pool; sample the rest
-        files = sorted(r.sample(files, min(48, len(files))), key=lambda p: p.rel)
+        files = sorted(r.sample(files, min(24, len(files))), key=lambda p: p.rel)
     return files, skipped, total
 
 
@@ -118,7 +118,11 @@ def content_tag(programs):
 
 def run(ctx):
     po = C.proof_obligations(ctx, PROP_MODULE, PROP_FILE, hygiene_paths=("DoraModel/Mini", PROP_FILE))
+    import time
+    C.log("[c02] proofs %.0fs" % (time.time() - ctx.t0))
+    t0 = time.time()
     tc = K.toolchain()
+    C.log("[c02] tool chain %s %.0fs" % (tc["hash"], time.time() - t0))
     stats = dict(evaluations=0, nontrivial=set(), hist={}, outcomes={}, disagreements=0, oracle_failures=0,
                  expectation_failures=0, samples=[], families={})
 
@@ -136,7 +140,13 @@ def run(ctx):
             stats["nontrivial"].add(hashlib.sha256(p.dora.encode()).hexdigest())
         return cls
 
-    def judge(p, res, kfun):
+    def judge(p, res, kfun, cdir=None):
+        if cdir is not None and res.get("batched"):
+            c0 = {b: K.classify(res["obs"][b]) for b in K.BACKENDS}
+            o = res["obs"]
+            sus = any(v.startswith("undefined:") for v in c0.values()) or c0["cannon"] != c0["boots"] or \
+                o["cannon"].get("stdout") != o["boots"].get("stdout")
+            res = K.confirm_individually(tc, cdir, p, res, sus)
         cls = account(p, res)
         obs = res["obs"]
         bad = False
@@ -173,18 +183,27 @@ def run(ctx):
         return cls
 
     # (1) generated programs (shared cache with C01)
-    n = 120 if ctx.tier == "quick" else 3000
+    n = K.QUICK_N if ctx.tier == "quick" else 3000
     programs = [G.gen_program(ctx.seed, i) for i in range(n)]
-    results = K.build_results(tc, programs, K.cache_dir(tc, ctx.seed))
+    gdir = K.cache_dir(tc, ctx.seed)
+    results = K.build_results(tc, programs, gdir)
     for p, res in zip(programs, results):
         p.family, p.case = "generated", p.name
-        judge(p, res, lambda p, kind, b=None: ("oracle:disagree:generated:%s" % sorted(p.features)[0] if kind == "disagree"
-                                               else "oracle:signal:generated:%s:%s" % (K.crash_site(res["obs"][b]), b)))
+
+        def gkey(p, kind, b=None, res=res):
+            if kind == "disagree":
+                return "oracle:disagree:generated:%s" % sorted(p.features)[0]
+            r2 = K.load_cached(gdir, p) or res
+            return "oracle:signal:generated:%s:%s" % (K.crash_site(r2["obs"][b]), b)
+        judge(p, res, gkey, gdir)
+    C.log("[c02] generated %.0fs" % (time.time() - t0))
+    t0 = time.time()
     # (2) hostile arguments
     hostile = G.hostile_programs(ctx.tier)
-    hres = K.build_results(tc, hostile, K.cache_dir(tc, "hostile", content_tag(hostile)))
+    hdir = K.cache_dir(tc, "hostile", content_tag(hostile))
+    hres = K.build_results(tc, hostile, hdir)
     for p, res in zip(hostile, hres):
-        judge(p, res, key_for)
+        judge(p, res, key_for, hdir)
     # (2b) committed corpus of minimised past failures: corpus/C02/*.dora
     cdir = os.path.join(C.VERIF, "corpus", "C02")
     corpus = []
@@ -195,9 +214,11 @@ def run(ctx):
                 rp = G.RawProgram("corpus_" + re.sub(r"[^A-Za-z0-9]+", "_", f[:-5]), "", "corpus", f[:-5])
                 rp.dora = body
                 corpus.append(rp)
-    cres = K.build_results(tc, corpus, K.cache_dir(tc, "corpus", content_tag(corpus))) if corpus else []
+    cres = K.build_results(tc, corpus, K.cache_dir(tc, "corpus", content_tag(corpus)), batch=False) if corpus else []
     for p, res in zip(corpus, cres):
         judge(p, res, key_for)
+    C.log("[c02] hostile+corpus %.0fs" % (time.time() - t0))
+    t0 = time.time()
     # (3) repository programs with deterministic expectations
     rts, skipped, rt_total = rt_corpus(ctx.tier, ctx.seed)
     rres = K.build_results(tc, rts, K.cache_dir(tc, "rt", content_tag(rts)))
@@ -217,6 +238,7 @@ def run(ctx):
                                  stdout_ok=oks, stderr=o.get("stderr", "")[:800]),
                             "test/rt/%s (%s): status %s, expected %s%s" % (p.rel, b, rc, p.exp_code,
                                                                            "" if oks else "; stdout differs from .stdout file"))
+    C.log("[c02] test/rt %.0fs" % (time.time() - t0))
     if not po["build_ok"] or po["failed"]:
         ctx.finding("proof:C02", dict(kind="proof", failed=po["failed"], log=po.get("build_log_tail", "")),
                     "property theorems of C02 no longer check: %s" % "; ".join(po["failed"])[:400],
@@ -232,7 +254,7 @@ def run(ctx):
                rule="three families, each program compiled with both back ends and run: (1) gen_program(seed, i) (C01's "
                     "programs), (2) hostile_programs(): boundary-value calls of Array/Vec/String entry points, shifts, "
                     "division, conversions, (3) test/rt programs without flag/argument/platform headers (quick: seeded "
-                    "sample of 48, no thread/gc dirs). non-trivial = hostile or rt program, or generated program with a "
+                    "sample of 24, no thread/gc dirs). non-trivial = hostile or rt program, or generated program with a "
                     "boundary operation or >= 3 feature classes; distinct by source hash",
                histogram=stats["hist"], families=stats["families"], outcomes=stats["outcomes"],
                rt_candidates=rt_total, rt_run=len(rts), rt_skipped=skipped,
